@@ -554,19 +554,46 @@ func runDeadlineReuse(c *checkCtx, iterations int, memfd bool, seed int64) (viol
 		}()
 		return done
 	}
+	stuck := ""
 	readOne := func(deadline time.Duration) (error, time.Duration) {
 		t0 := time.Now()
-		cl.SetReadDeadline(t0.Add(deadline))
-		_, err := cl.BufferReader().ReadBytes(1)
-		if err == nil {
-			cl.BufferReader().ReleasePreviousRead()
+		type res struct {
+			err  error
+			took time.Duration
 		}
-		return err, time.Since(t0)
+		ch := make(chan res, 1)
+		go func() {
+			cl.SetReadDeadline(t0.Add(deadline))
+			_, err := cl.BufferReader().ReadBytes(1)
+			if err == nil {
+				cl.BufferReader().ReleasePreviousRead()
+			}
+			ch <- res{err, time.Since(t0)}
+		}()
+		select {
+		case r := <-ch:
+			return r.err, r.took
+		case <-time.After(deadline + blkBound + 5*time.Second):
+			// a deadline-bounded read that is still blocked long after its deadline (data or not): bounded progress is violated
+			stuck = fmt.Sprintf("a read with a deadline of %v is still blocked %v after it was called: %s", deadline, time.Since(t0),
+				truncate(blkWaiterStack(goroutineDump()), 1200))
+			cl.Close()
+			p.client.Close()
+			select {
+			case <-ch:
+			case <-time.After(5 * time.Second):
+			}
+			return fmt.Errorf("stuck"), time.Since(t0)
+		}
 	}
 	for i := 0; i < iterations; i++ {
 		d1 := time.Duration(150+rng.Intn(400)) * time.Microsecond
 		s1 := send(d1 - time.Duration(rng.Intn(60))*time.Microsecond + time.Duration(rng.Intn(60))*time.Microsecond)
 		err1, took1 := readOne(d1)
+		if stuck != "" {
+			<-s1
+			return stuck, races, ""
+		}
 		if err1 != nil && err1 != ErrTimeout {
 			return "", races, "read failed: " + err1.Error()
 		}
@@ -586,6 +613,10 @@ func runDeadlineReuse(c *checkCtx, iterations int, memfd bool, seed int64) (viol
 		for n := 0; n < 1+pendingBytes; n++ {
 			const far = 3 * time.Second
 			err2, took2 := readOne(far)
+			if stuck != "" {
+				<-s2
+				return stuck, races, ""
+			}
 			if err2 == ErrTimeout && took2 < far-200*time.Millisecond {
 				<-s2
 				return fmt.Sprintf("iteration %d: a read with a deadline %v away returned ErrTimeout after only %v (the previous wait of this stream ended within %v of its own deadline)",
